@@ -8,6 +8,7 @@ package main
 import (
 	"bytes"
 	"fmt"
+	"net/url"
 	"strings"
 
 	"github.com/WICG/webpackage/go/signedexchange/zverif/mc"
@@ -141,8 +142,41 @@ func c04GenSweep(c *mc.Ctx) *c04Case {
 	return cs
 }
 
+// c04GenURLBytes: one exchange whose URL carries every byte value 0..255 inside its query (net/url keeps a raw query
+// verbatim, so bytes above 0x7f reach the index key unescaped and the key is then not valid UTF-8: not representable),
+// listed first among 2 or 6 exchanges.  The writer must refuse such a bundle (error or panic) or emit a well-formed
+// one; it must never emit an index that skips the entry.
+func c04GenURLBytes(c *mc.Ctx) *c04Case {
+	cs := &c04Case{}
+	cs.Ver = []string{"b2", "b1"}[c.Free(2, "version")]
+	cs.Primary = &c04PrimaryPool[0]
+	b := c.Free(256, "byte inside the URL query")
+	others := []int{1, 5}[c.Free(2, "further exchanges")]
+	pos := c.Free(2, "swept URL first / in the middle")
+	u := "https://a.test/q?x=" + string([]byte{byte(b)}) + "y"
+	desc := fmt.Sprintf("URL query byte %02x", b)
+	if pu, err := url.Parse(u); err != nil || pu.String() != u {
+		u = fmt.Sprintf("https://a.test/q?x=%%%02Xy", b)
+		desc += " (percent-encoded: net/url refuses or respells the raw byte)"
+	}
+	sw := c04Ex{URL: u, Status: 200, Hdr: c04HeaderSet(0, 1), Body: []byte("swept")}
+	for i := 0; i < others; i++ {
+		if pos == 1 && i == others/2 {
+			cs.Exs = append(cs.Exs, sw)
+		}
+		cs.Exs = append(cs.Exs, c04Ex{URL: fmt.Sprintf("https://a.test/other%d", i), Status: 200, Hdr: c04HeaderSet(0, 1), Body: []byte(fmt.Sprintf("other %d", i))})
+	}
+	if pos == 0 {
+		cs.Exs = append([]c04Ex{sw}, cs.Exs...)
+	}
+	cs.Desc = fmt.Sprintf("%s url-bytes: %s, %d further exchanges, position %d", cs.Ver, desc, others, pos)
+	return cs
+}
+
 func init() {
 	p4 := props["C04"]
+	p4.Harnesses = append(p4.Harnesses, &mc.Harness{Name: "C04/url-bytes", Run: func(c *mc.Ctx) { c04Check(c, "C04/url-bytes", c04GenURLBytes(c)) }})
+	p4.Rule += " C04/url-bytes: b1/b2 x every byte value 0..255 inside one URL's query (raw where net/url keeps it raw: bytes above 0x7f make the index key invalid UTF-8) x 1 / 5 further exchanges x position; a refusal (error or panic) or a well-formed bundle."
 	p4.Harnesses = append(p4.Harnesses, &mc.Harness{Name: "C04/many", Run: func(c *mc.Ctx) { c04Check(c, "C04/many", c04GenMany(c)) }})
 	p4.Rule += " C04/many: b1/b2 x exchange count {4,22,23,24,25,63,64,65,255,256,257; thorough also 127,128,1000,1024,4096,65535,65536} (the head-size boundaries of the index map and the responses array) x body length {1,0,24} x insertion in ascending / descending URL order, URLs of varying length."
 	p4.Harnesses = append(p4.Harnesses, &mc.Harness{Name: "C04/variant-limit", Run: func(c *mc.Ctx) { c04Check(c, "C04/variant-limit", c04GenVariantLimit(c)) }})
